@@ -140,7 +140,7 @@ impl Plan {
 
 /// Key universes: shapes the properties single out.
 pub fn gen_keys(rng: &mut Rng, n: usize) -> Vec<Vec<u8>> {
-    let shape = rng.below(8);
+    let shape = rng.below(9);
     let mut keys: Vec<Vec<u8>> = vec![];
     let mut push = |k: Vec<u8>, keys: &mut Vec<Vec<u8>>| {
         if !keys.contains(&k) {
@@ -198,6 +198,17 @@ pub fn gen_keys(rng: &mut Rng, n: usize) -> Vec<Vec<u8>> {
             while keys.len() < n {
                 let len = rng.range(0, 6) as usize;
                 push((0..len).map(|_| rng.below(256) as u8).collect(), &mut keys);
+            }
+        }
+        8 => {
+            // huge keys (1.5-12 KiB, long shared prefix): a manifest record embeds the smallest and
+            // largest key of every file it adds, so version edits and manifest snapshots span
+            // several 32 KiB log blocks (fragmented records), and so do WAL records
+            let len = *rng.pick(&[1500usize, 5000, 12000]);
+            for i in 0..n.min(12) {
+                let mut k = vec![b'K'; len];
+                k.extend_from_slice(format!("{:04}", i * 7 % 1000).as_bytes());
+                push(k, &mut keys);
             }
         }
         6 => {
